@@ -278,16 +278,30 @@ Section Reader.
   Definition seek_record (r : reader) (typ : N) (want : bytes) : res (option titer) :=
     if negb (o_present (rd_offsets r typ)) then Ok None else rd_seek r typ want.
 
-  (* drain an iterator *)
+  (* the records of the current block from position p on (repeated blockIter.Next);
+     fuel = bytes of the (inflated) block: every record consumes at least one *)
+  Fixpoint block_rest (fuel : nat) (r : reader) (b : br) (p : bpos) (acc : list record) : res (list record) :=
+    match fuel with
+    | O => Fuel
+    | S f =>
+        match bi_next b p with
+        | None => Err
+        | Some None => Ok (rev acc)
+        | Some (Some (rec, p')) => block_rest f r b p' (fix_index r rec :: acc)
+        end
+    end.
+
+  (* drain an iterator: repeated tableIter.Next until it reports the end *)
   Fixpoint ti_drain (fuel : nat) (r : reader) (t : titer) (acc : list record) : res (list record) :=
     match fuel with
     | O => Fuel
     | S f =>
-        let* nx := ti_next (blocks_fuel r) r t in
-        match nx with
-        | None => Ok (rev acc)
-        | Some (rec, t') => ti_drain f r t' (rec :: acc)
-        end
+        if ti_done t then Ok acc
+        else
+          let* recs := block_rest (S (length (br_block (ti_br t)))) r (ti_br t) (ti_pos t) [] in
+          let* nb := ti_next_block r t in
+          let '(t', moved) := nb in
+          if moved then ti_drain f r t' (acc ++ recs) else Ok (acc ++ recs)
     end.
 
   Definition drain_opt (r : reader) (ot : option titer) : res (list record) :=
@@ -306,17 +320,6 @@ Section Reader.
     match rec with RecRef x => points_to oid x | _ => false end.
 
   (* indexedTableRefIter: every ref block listed for the object id, filtered *)
-  Fixpoint block_all (fuel : nat) (r : reader) (b : br) (p : bpos) (acc : list record) : res (list record) :=
-    match fuel with
-    | O => Fuel
-    | S f =>
-        match bi_next b p with
-        | None => Err
-        | Some None => Ok (rev acc)
-        | Some (Some (rec, p')) => block_all f r b p' (fix_index r rec :: acc)
-        end
-    end.
-
   Fixpoint refs_in_blocks (r : reader) (oid : bytes) (offs : list N) : res (list record) :=
     match offs with
     | [] => Ok []
@@ -325,7 +328,7 @@ Section Reader.
         match ob with
         | None => Err                            (* indexed block does not exist *)
         | Some b =>
-            let* recs := block_all (S (length (br_block b))) r b (br_start b) [] in
+            let* recs := block_rest (S (length (br_block b))) r b (br_start b) [] in
             let* more := refs_in_blocks r oid rest in
             Ok (filter (rec_points_to oid) recs ++ more)
         end
